@@ -801,7 +801,9 @@ def parse_tree_to_objgraph(
         # Collect rules for textx-tools
         if inst is not None and metamodel.textx_tools_support:
             pos = (inst._tx_position, inst._tx_position_end)
-            pos_rule_dict[pos] = inst
+            # Children are processed before their containers: if nested
+            # objects share a span keep the innermost one.
+            pos_rule_dict.setdefault(pos, inst)
 
         return inst
 
